@@ -5,15 +5,19 @@ PROPERTY = "C19"
 FILE = "harness/chx_C19.py"
 FUNCTIONS = ["magpylib._src.display.traces_utility:get_rot_pos_from_path", "magpylib._src.utility:style_temp_edit",
              "magpylib._src.display.traces_generic:process_animation_kwargs", "magpylib._src.defaults.defaults_classes:Animation (setters, update, copy, as_dict)",
+             "magpylib._src.display.traces_generic:get_frames", "magpylib._src.display.traces_generic:extract_animation_properties", "magpylib._src.utility:get_unit_factor",
              "magpylib._src.display.traces_utility:get_objects_props_by_row_col", "magpylib._src.display.traces_utility:get_flatten_objects_properties_recursive"]
 BOUNDS = ["get_rot_pos_from_path: path length 1..5, frame lists of 3 indices in 0..7, integer steps 1..6, True/False",
           "which objects get a graphic: universe T, M, L collections + Sensor + Dipole, parent(M) in {None,T}, parent(L) in {None,T,M}, the leaves anywhere (symbolic "
           "parent indices), show(X) for every X in one subplot and T in a second subplot",
+          "animation frames: path length in {2,3,5,7,12}, maxframes in {2,3,4,50}, fps / time from the committed lists (symbolic selectors); "
+          "unit factor: all 18 SI prefixes of the table plus d, c",
           "style_temp_edit: drawing succeeds / raises, copy on/off, with / without a temporary style, object with / without an own style (all symbolic booleans)",
           "process_animation_kwargs: animation_fps, animation_maxfps in {1,3,50}, animation_maxframes in {5,200}, animation_time in {2,60} chosen by "
           "symbolic selectors (CrossHair runs builtin setattr() untraced, so validator inputs cannot stay symbolic), slider symbolic bool, time given as "
           "animation=<number> or as animation_time"]
-CUTS = ["get_objects_props_by_row_col: get_style is stubbed by a constant style (style resolution is C20's subject)", "objects are stand-ins exposing _position / _orientation arrays (frames) or a _style attribute (style_temp_edit); the drawing inside the with-block is "
+CUTS = ["get_frames: draw_frame (trace generation) is stubbed by a recorder, so frame selection / down-sampling / announcement are what is checked",
+        "get_objects_props_by_row_col: get_style is stubbed by a constant style (style resolution is C20's subject)", "objects are stand-ins exposing _position / _orientation arrays (frames) or a _style attribute (style_temp_edit); the drawing inside the with-block is "
         "an arbitrary body that either returns or raises"]
 ASSUMPTIONS = []
 NOT_DECIDED = []
